@@ -1,6 +1,8 @@
 package buildsim
 
 import (
+	"archive/tar"
+	"archive/zip"
 	"bytes"
 	"context"
 	"fmt"
@@ -13,8 +15,6 @@ import (
 	"github.com/bufbuild/buf/private/pkg/app"
 	"github.com/bufbuild/buf/private/pkg/app/appcmd"
 	"github.com/bufbuild/buf/private/pkg/protoencoding"
-	"github.com/bufbuild/buf/private/pkg/storage/storagearchive"
-	"github.com/bufbuild/buf/private/pkg/storage/storagemem"
 	"github.com/bufbuild/verif/simfs"
 	"google.golang.org/protobuf/proto"
 
@@ -32,98 +32,232 @@ func (m *bsim) cliUsable() bool {
 	return true
 }
 
+// cliPlan holds the tape-drawn decisions about the on-disk layout, so that the same workspace can be
+// materialised more than once (in different creation orders) without drawing again.
+type cliPlan struct {
+	shared    bool
+	modDir    []string
+	linked    map[string]bool // module/path -> the file lives elsewhere and is linked into the module
+	alias     map[string]bool // module/path -> a second name (a link, sorting after the real name) for the file
+	inputKind int             // 0 directory, 1 tar, 2 zip
+	staleTwin string          // archive member that appears twice: a stale copy first, the real one after it
+}
+
 // writeCLIWorkspace lays the workspace out on disk as a v2 workspace: buf.yaml at the root, one
 // directory per module - or, with three modules, the first two sharing one directory (told apart by
-// includes) next to a directory whose name is that directory's plus "-2".
+// includes) next to a directory whose name is that directory's plus "-2". Some files live elsewhere
+// and are linked in, some have a second name (a link next to them). It is materialised twice: the
+// second copy is created in reverse order, links before their targets (directory enumeration order
+// follows creation order on some file systems). Executions alternate between the two copies.
 func (m *bsim) writeCLIWorkspace() string {
-	root := filepath.Join(m.env.Scratch, "cli", "ws")
-	m.cliModDir = nil
-	shared := len(m.ws.Modules) == 3 && m.tp.Draw("clishared", 2) == 1
-	var y strings.Builder
-	y.WriteString("version: v2\nmodules:\n")
+	plan := &cliPlan{linked: map[string]bool{}, alias: map[string]bool{}}
+	plan.shared = len(m.ws.Modules) == 3 && m.tp.Draw("clishared", 2) == 1
+	appleDouble := false
 	for _, mod := range m.ws.Modules {
 		dir := fmt.Sprintf("mod%d", mod.Index)
-		if shared {
+		if plan.shared {
 			dir = "shared"
 			if mod.Index == 2 {
 				dir = "shared-2"
 			}
 		}
-		m.cliModDir = append(m.cliModDir, dir)
+		plan.modDir = append(plan.modDir, dir)
+		for _, p := range simfs.SortedKeys(mod.ModuleFiles()) {
+			if !strings.HasSuffix(p, ".proto") {
+				continue
+			}
+			if strings.HasPrefix(filepath.Base(p), "._") {
+				appleDouble = true
+			}
+			switch m.tp.Draw("clisymlink", 8) {
+			case 7:
+				plan.linked[dir+"/"+p] = true
+			case 6:
+				plan.alias[dir+"/"+p] = true
+			}
+		}
+	}
+	plan.inputKind = m.tp.Draw("cliinput", 3)
+	if appleDouble {
+		// (archive extraction drops AppleDouble "._name" entries by design: such a workspace is given as a directory)
+		plan.inputKind = 0
+	}
+	twinDraw := m.tp.Draw("clitwin", 2)
+	m.cliModDir = plan.modDir
+	for variant := 0; variant < 2; variant++ {
+		root := filepath.Join(m.env.Scratch, "cli", []string{"ws", "wsB"}[variant])
+		members := m.materialiseCLIWorkspace(plan, root, variant)
+		m.cliInputs[variant], m.cliFlagRoots[variant] = root, root
+		if plan.inputKind != 0 {
+			if twinDraw == 1 && plan.staleTwin == "" {
+				for _, name := range simfs.SortedKeys(members) {
+					if strings.HasSuffix(name, ".proto") {
+						plan.staleTwin = name
+						break
+					}
+				}
+			}
+			archive := filepath.Join(m.env.Scratch, "cli", fmt.Sprintf("ws%d", variant))
+			archive = m.writeCLIArchive(plan, archive, members)
+			m.cliInputs[variant] = archive + "#subdir=inner/tree"
+			m.cliFlagRoots[variant] = "" // --path values of an archive input are relative to the sub-directory
+		}
+	}
+	if plan.shared {
+		m.s.Probe("cli-modules-sharing-a-directory")
+	}
+	if plan.inputKind != 0 {
+		m.s.Probe("cli-archive-input")
+	}
+	if len(plan.linked) > 0 {
+		m.s.Probe("cli-symlinked-source-file")
+	}
+	if len(plan.alias) > 0 {
+		m.s.Probe("cli-second-name-for-a-file")
+	}
+	return filepath.Join(m.env.Scratch, "cli", "ws")
+}
+
+// materialiseCLIWorkspace writes one copy; it returns the regular content by path relative to root
+// (what an archive of the tree contains; second names are not part of archives).
+func (m *bsim) materialiseCLIWorkspace(plan *cliPlan, root string, variant int) map[string][]byte {
+	members := map[string][]byte{}
+	type item struct {
+		rel     string
+		content []byte
+	}
+	var items []item
+	var y strings.Builder
+	y.WriteString("version: v2\nmodules:\n")
+	for _, mod := range m.ws.Modules {
+		dir := plan.modDir[mod.Index]
 		fmt.Fprintf(&y, "  - path: %s\n", dir)
 		if mod.Name != "" {
 			fmt.Fprintf(&y, "    name: %s\n", mod.Name)
 		}
 		tops := map[string]bool{}
-		for p, content := range mod.ModuleFiles() {
+		files := mod.ModuleFiles()
+		for _, p := range simfs.SortedKeys(files) {
 			if strings.HasSuffix(p, ".proto") {
 				tops[strings.SplitN(p, "/", 2)[0]] = true
-			} else if shared && mod.Index < 2 {
+			} else if plan.shared && mod.Index < 2 {
 				// LICENSE / README of two modules would collide in the shared directory
 				continue
 			}
-			full := filepath.Join(root, dir, filepath.FromSlash(p))
-			if err := os.MkdirAll(filepath.Dir(full), 0o755); err != nil {
-				panic(err)
-			}
-			if err := os.WriteFile(full, content, 0o644); err != nil {
-				panic(err)
-			}
+			items = append(items, item{dir + "/" + p, files[p]})
 		}
-		if shared && mod.Index < 2 {
+		if plan.shared && mod.Index < 2 {
 			y.WriteString("    includes:\n")
 			for _, top := range simfs.SortedKeys(tops) {
 				fmt.Fprintf(&y, "      - %s/%s\n", dir, top)
 			}
 		}
 	}
-	if shared {
-		m.s.Probe("cli-modules-sharing-a-directory")
+	items = append(items, item{"buf.yaml", []byte(y.String())})
+	if variant == 1 {
+		for i, j := 0, len(items)-1; i < j; i, j = i+1, j-1 {
+			items[i], items[j] = items[j], items[i]
+		}
 	}
-	if err := os.WriteFile(filepath.Join(root, "buf.yaml"), []byte(y.String()), 0o644); err != nil {
+	write := func(full string, content []byte) {
+		if err := os.MkdirAll(filepath.Dir(full), 0o755); err != nil {
+			panic(err)
+		}
+		if err := os.WriteFile(full, content, 0o644); err != nil {
+			panic(err)
+		}
+	}
+	for _, it := range items {
+		members[it.rel] = it.content
+		full := filepath.Join(root, filepath.FromSlash(it.rel))
+		if err := os.MkdirAll(filepath.Dir(full), 0o755); err != nil {
+			panic(err)
+		}
+		switch {
+		case plan.linked[it.rel]:
+			// the file lives elsewhere and is linked into the module (the command follows links)
+			real := filepath.Join(filepath.Dir(root), "linked-"+filepath.Base(root), strings.ReplaceAll(it.rel, "/", "_"))
+			write(real, it.content)
+			if err := os.Symlink(real, full); err != nil {
+				panic(err)
+			}
+		case plan.alias[it.rel]:
+			// a second name for the same file, sorting after the real one: one file, reported once,
+			// under the first name in path order
+			alias := filepath.Join(filepath.Dir(full), "zz_second_name_"+filepath.Base(full))
+			if variant == 1 {
+				if err := os.Symlink(filepath.Base(full), alias); err != nil {
+					panic(err)
+				}
+				write(full, it.content)
+			} else {
+				write(full, it.content)
+				if err := os.Symlink(filepath.Base(full), alias); err != nil {
+					panic(err)
+				}
+			}
+		default:
+			write(full, it.content)
+		}
+	}
+	return members
+}
+
+// writeCLIArchive packs the tree below inner/tree of a tar or zip file. One member may appear twice,
+// a stale copy first: the later member wins.
+func (m *bsim) writeCLIArchive(plan *cliPlan, base string, members map[string][]byte) string {
+	type member struct {
+		name string
+		data []byte
+	}
+	var list []member
+	list = append(list, member{"elsewhere/unrelated.txt", []byte("not part of the workspace")})
+	for _, name := range simfs.SortedKeys(members) {
+		if name == plan.staleTwin {
+			list = append(list, member{"inner/tree/" + name, []byte("syntax = \"proto3\";\npackage stale.copy;\nmessage Stale {}\n")})
+		}
+	}
+	for _, name := range simfs.SortedKeys(members) {
+		list = append(list, member{"inner/tree/" + name, members[name]})
+	}
+	var buf bytes.Buffer
+	path := base + ".tar"
+	if plan.inputKind == 1 {
+		tw := tar.NewWriter(&buf)
+		for _, mb := range list {
+			if err := tw.WriteHeader(&tar.Header{Typeflag: tar.TypeReg, Name: mb.name, Size: int64(len(mb.data)), Mode: 0o644}); err != nil {
+				panic(err)
+			}
+			if _, err := tw.Write(mb.data); err != nil {
+				panic(err)
+			}
+		}
+		if err := tw.Close(); err != nil {
+			panic(err)
+		}
+	} else {
+		path = base + ".zip"
+		zw := zip.NewWriter(&buf)
+		for _, mb := range list {
+			w, err := zw.CreateHeader(&zip.FileHeader{Name: mb.name, Method: zip.Deflate})
+			if err != nil {
+				panic(err)
+			}
+			if _, err := w.Write(mb.data); err != nil {
+				panic(err)
+			}
+		}
+		if err := zw.Close(); err != nil {
+			panic(err)
+		}
+	}
+	if err := os.WriteFile(path, buf.Bytes(), 0o644); err != nil {
 		panic(err)
 	}
-	// the same tree as an archive with the workspace in a sub-directory
-	m.cliInput = root
-	m.cliFlagRoot = root
-	if kind := m.tp.Draw("cliinput", 3); kind != 0 {
-		files := map[string][]byte{}
-		_ = filepath.Walk(root, func(p string, info os.FileInfo, err error) error {
-			if err == nil && info.Mode().IsRegular() {
-				data, rerr := os.ReadFile(p)
-				if rerr != nil {
-					panic(rerr)
-				}
-				rel, _ := filepath.Rel(root, p)
-				files["inner/tree/"+filepath.ToSlash(rel)] = data
-			}
-			return nil
-		})
-		files["elsewhere/unrelated.txt"] = []byte("not part of the workspace")
-		bucket, err := storagemem.NewReadBucket(files)
-		if err != nil {
-			panic(err)
-		}
-		var buf bytes.Buffer
-		name := "ws.tar"
-		if kind == 1 {
-			err = storagearchive.Tar(context.Background(), bucket, &buf)
-		} else {
-			name = "ws.zip"
-			err = storagearchive.Zip(context.Background(), bucket, &buf, true)
-		}
-		if err != nil {
-			panic(err)
-		}
-		archive := filepath.Join(m.env.Scratch, "cli", name)
-		if err := os.WriteFile(archive, buf.Bytes(), 0o644); err != nil {
-			panic(err)
-		}
-		m.cliInput = archive + "#subdir=inner/tree"
-		m.cliFlagRoot = "" // --path values of an archive input are relative to the sub-directory
-		m.s.Probe("cli-archive-input")
+	if plan.staleTwin != "" {
+		m.s.Probe("cli-archive-member-twice")
 	}
-	return root
+	return path
 }
 
 // cliArgs expresses the targeting as flags, in this execution's listing order.
@@ -145,7 +279,7 @@ func (m *bsim) cliArgs(root string) []string {
 			if !mod.Targeted {
 				continue
 			}
-			dir := filepath.Join(m.cliFlagRoot, m.cliModDir[mod.Index])
+			dir := filepath.Join(m.cliFlagRoots[m.cliVariant], m.cliModDir[mod.Index])
 			if len(mod.TargetPaths) == 0 && needPaths {
 				// (a module directory itself may not be given as --path: name every top-level directory of its files)
 				tops := map[string]bool{}
@@ -184,7 +318,7 @@ func (m *bsim) cliBuild(ctx context.Context, root string) (bufimage.Image, []byt
 	m.counters["cli_builds"]++
 	var stdout, stderr bytes.Buffer
 	env := map[string]string{"HOME": filepath.Join(m.env.Scratch, "cli", "home"), "BUF_CACHE_DIR": filepath.Join(m.env.Scratch, "cli", "cache"), "PATH": ""}
-	args := append([]string{"buf", "build", m.cliInput, "-o", out}, m.cliArgs(root)...)
+	args := append([]string{"buf", "build", m.cliInputs[m.cliVariant], "-o", out}, m.cliArgs(root)...)
 	container := app.NewContainer(env, strings.NewReader(""), &stdout, &stderr, args...)
 	if err := appcmd.Run(ctx, container, bufcli.NewRootCommand("buf")); err != nil {
 		return nil, nil, fmt.Errorf("%w (stderr: %s)", err, strings.ReplaceAll(stderr.String(), m.env.Scratch, "<scratch>"))
@@ -211,9 +345,14 @@ func (m *bsim) cliBuild(ctx context.Context, root string) (bufimage.Image, []byt
 func (m *bsim) cliText(ctx context.Context, root string, command string, extra ...string) string {
 	var stdout, stderr bytes.Buffer
 	env := map[string]string{"HOME": filepath.Join(m.env.Scratch, "cli", "home"), "BUF_CACHE_DIR": filepath.Join(m.env.Scratch, "cli", "cache"), "PATH": ""}
-	args := append([]string{"buf", command, m.cliInput}, m.cliArgs(root)...)
+	args := append([]string{"buf", command, m.cliInputs[m.cliVariant]}, m.cliArgs(root)...)
 	args = append(args, extra...)
 	container := app.NewContainer(env, strings.NewReader(""), &stdout, &stderr, args...)
 	err := appcmd.Run(ctx, container, bufcli.NewRootCommand("buf"))
-	return fmt.Sprintf("%s\n--- stderr\n%s\n--- failed=%v", stdout.String(), stderr.String(), err != nil)
+	text := fmt.Sprintf("%s\n--- stderr\n%s\n--- failed=%v", stdout.String(), stderr.String(), err != nil)
+	// (the two copies of the workspace differ in nothing but their location)
+	for _, loc := range []string{filepath.Join(m.env.Scratch, "cli", "wsB"), filepath.Join(m.env.Scratch, "cli", "ws1"), filepath.Join(m.env.Scratch, "cli", "ws0"), filepath.Join(m.env.Scratch, "cli", "ws")} {
+		text = strings.ReplaceAll(text, loc, "<ws>")
+	}
+	return text
 }
